@@ -705,6 +705,8 @@ func (rt *runtime) toValue(value interface{}) Value {
 			typ := val.Type()
 
 			return objectValue(rt.newNativeFunction(name, file, line, func(c FunctionCall) Value {
+				// the runtime of THIS call: clone shares the closure with copies of the runtime
+				rt := c.runtime
 				nargs := typ.NumIn()
 
 				if len(c.ArgumentList) != nargs {
